@@ -26,7 +26,7 @@ CHECKS = {
         tech="differential check (export / import / export) over a bounded-exhaustive corpus of packages produced by the implementation",
         ref="DESIGN.md 2/C11"),
     "C12": dict(
-        text="deciding leg: for every design of the corpus (design families incl. one-object-feeds-many-ports designs, the DAGs, the example scripts) all executions with at most 1 deviation (2 thorough) from insertion order at every point where the library iterates a hash set of >=2 elements are run under a controllable set class bound to the name `set` of every hdl21 module; package bytes and spice / spectre / verilog text must equal the 0-deviation run. Conformance leg: the corpus is re-run in 5 (8) real sub-processes with different PYTHONHASHSEED and allocation noise, which must agree with each other and with the explored runs (else the seam is reported incomplete)",
+        text="deciding leg: for every design of the corpus (design families incl. one-object-feeds-many-ports designs, the DAGs, the example scripts) all executions with at most 1 deviation (2 thorough) from insertion order at every point where the library iterates a hash set of >=2 elements are run under a controllable set class bound to the name `set` of every hdl21 module (set displays and comprehensions are compiled as calls to it by an import hook of the checker, so every hash set hdl21 creates is owned); package bytes and spice / spectre / verilog text must equal the 0-deviation run. Conformance leg: the corpus is re-run in 5 (8) real sub-processes with different PYTHONHASHSEED and allocation noise, which must agree with each other and with the explored runs (else the seam is reported incomplete)",
         note="owns set-iteration order only; the sub-process leg is sampling and only validates the seam; choice points over >4 elements use transpositions + reversal",
         tech="iterative deviation-bounded exhaustive exploration of iteration orders (stateless model checking of the implementation under a controlled nondeterminism source) plus replay in real processes",
         ref="DESIGN.md 2/C12"),
@@ -41,7 +41,7 @@ CHECKS = {
         tech="exhaustive enumeration of a bounded input box executed on the implementation, oracle = exact rational arithmetic",
         ref="DESIGN.md 2/C14"),
     "C02": dict(
-        text="for a base corpus drawn from every design family, every single-fault mutant (declared width +-1, slice bound, empty slice, out-of-range index, concat part, anonymous-member width, referenced-port width, array count, missing connection, extra port, bad port / member reference, orphan signal / bundle / instance owned by nobody or by another module, referenced no-connect) is planted at every site; mutants the reference semantics calls ill-formed for that reason are run through elaborate, to_proto and netlist on fresh builds, each of which must raise; plus directly built cycles (length 1..3, depth 0..2), unnamed modules and module-name clashes",
+        text="for a base corpus drawn from every design family, every single-fault mutant (declared width +-1, slice bound, empty slice, out-of-range index, concat part, anonymous-member width, referenced-port width, array count, missing connection (also with the port read afterwards), extra port, bad port / member reference, bundle instance of another type, orphan signal / bundle / instance owned by nobody or by another module, signal replaced after being connected, no-connect referenced directly or inside a concatenation / slice) is planted at every site; mutants the reference semantics calls ill-formed for that reason are run through elaborate, to_proto and netlist on fresh builds, each of which must raise; plus directly built cycles (length 1..3, depth 0..2), unnamed modules and module-name clashes",
         note="base designs are every k-th design of each family (offset by VERIF_SEED); range bounds beyond [-w,w] follow C03's raise-or-clamp rule; a shared NoConn object is well-formed per C01's quantifier",
         tech="exhaustive single-fault mutation of a bounded design corpus at every site, each mutant executed on the implementation; reference semantics decides ill-formedness",
         ref="DESIGN.md 2/C02"),
@@ -66,12 +66,12 @@ CHECKS = {
         tech="exhaustive enumeration of call histories up to a depth bound on the real objects, differential oracle against a history-free build",
         ref="DESIGN.md 2/C07"),
     "C08": dict(
-        text="fault points enumerated exhaustively: an injected failing pass at every (pass position x module) of two design DAGs through the public custom pass list; every library-rejected single-fault mutant of the DAG designs (so each checking / rewriting pass and the exporter fails somewhere); generator bodies raising (plain, nested, shared); each followed by every continuation: retry unchanged, retry with the fault removed, repair and retry, unrelated design, export of every healthy module, retry again",
+        text="fault points enumerated exhaustively: an injected failing pass at every (pass position x module) of two design DAGs through the public custom pass list; every library-rejected single-fault mutant of the DAG designs (so each checking / rewriting pass and the exporter fails somewhere); generator bodies raising (plain, nested, shared); each followed by every continuation: retry unchanged, retry with the fault removed, repair and retry, unrelated design, export of every healthy module (children or parents first), export of every other module containing the faulty one (must agree with a fresh build of the same faulty design), edit of every healthy module followed by its export (refused, or equal to a fresh build with the same edit), retry again",
         note="'original error again' = the informative tail of the first message re-appears and no circular-dependency error appears that the first attempt did not report; quick tier: every 2nd real mutant, to_proto entry only (cap reported)",
         tech="exhaustive fault-point x continuation enumeration on the implementation (fault injection through public extension points and planted design faults), differential oracle against fresh builds",
         ref="DESIGN.md 2/C08"),
     "C09": dict(
-        text="for eight parameter-class shapes, all ordered pairs of an adversarial value set x three call forms (keywords, instance, handed on through a second generator) are executed on the real generator machinery in a fresh cache: identity, body-run counts, package names and netlist sub-circuit names are compared; all permutations of up to four calls are replayed for name stability; three fresh processes with different hash seeds must agree",
+        text="for ten parameter-class shapes (incl. Optional[str] and set-valued fields), all ordered pairs of an adversarial value set x three call forms (keywords, instance, handed on through a second generator) are executed on the real generator machinery in a fresh cache: identity, body-run counts, package names and netlist sub-circuit names are compared; all permutations of up to four calls are replayed for name stability; three fresh processes with different hash seeds must agree",
         note="parameter-class equality decides which calls must share a Module; two same-named Modules as parameter values and unhashable dict-parameter calls are excluded as grey",
         tech="exhaustive enumeration of value pairs and of call-order permutations (operation histories) executed on the implementation, differential oracle across histories and processes",
         ref="DESIGN.md 2/C09"),
@@ -91,12 +91,12 @@ CHECKS = {
         tech="exhaustive enumeration of a bounded input family executed on the implementation, oracle = reference translator",
         ref="DESIGN.md 2/C17"),
     "C18": dict(
-        text="breadth-first search over all setattr / add(named) / add(name=) operations with names {a,b} and every attribute kind on a real Module (states merged on the reference model's state, to a fixpoint) plus all un-merged histories up to length 2 (3 thorough); after every step get(), attribute access, the six views, the namespace, port visibility and parent pointers are compared with a dict model, rejected operations are tried in every state and every state is exported and compared with the reference semantics; the same for Bundles to length 3 (4); class-style vs procedural definitions over all sequences up to length 2 (3)",
+        text="breadth-first search over all setattr / add(named) / add(name=) operations with names {a,b} and every attribute kind on a real Module (states merged on the reference model's state, to a fixpoint) plus all un-merged histories up to length 2 (3 thorough); after every step get(), attribute access, the six views, the namespace, port visibility and parent pointers are compared with a dict model, rejected operations are tried in every state, every name shadowed by one of the object's own Python attributes is probed (refused, or coherently stored), and every state is exported and compared with the reference semantics; the same for Bundles to length 3 (4) incl. additions after a using module was elaborated; class-style vs procedural definitions over all sequences up to length 2 (3)",
         note="storing one object under two different names is outside the alphabet (unspecified behaviour)",
         tech="explicit-state breadth-first search over operation histories of the real objects with canonical state merging, invariant checked in every state against a reference model",
         ref="DESIGN.md 2/C18"),
     "C19": dict(
-        text="Series over n in 1..4 (8 thorough) x 8 unit cells (2-4 port primitives, external module, module with bus port, module with bundle port) x every ordered pair of distinct scalar unit ports given by name and by Signal, MosStack over n, and Wrapper of every unit; the exported package's leaf-level partition, devices and ports are compared with the chain topology written directly as a design description and run through the reference semantics; series ports wider than a bit must be refused",
+        text="Series over n in 1..4 (8 thorough) x 8 unit cells (2-4 port primitives, external module, module with bus port, module with bundle port) x every ordered pair of distinct scalar unit ports given by name and by Signal, MosStack over n, Wrapper of every unit, pre-elaborated units, units whose ports are named like the generators' own attributes, and calls made after another same-named cell / after the earlier wrapper was edited; the exported package's leaf-level partition, devices and ports are compared with the chain topology written directly as a design description and run through the reference semantics; series ports wider than a bit must be refused",
         note="array elements are matched under their documented names units_k",
         tech="exhaustive enumeration of a bounded input box executed on the implementation, oracle = reference model of the documented topology",
         ref="DESIGN.md 2/C19"),
